@@ -24,6 +24,8 @@
 #include <sched.h>
 #include <signal.h>
 #include <stdint.h>
+#include <linux/sched.h>
+#include <sys/mount.h>
 #include <stdio.h>
 #include <stdio_ext.h>
 #include <stdlib.h>
@@ -1032,6 +1034,34 @@ static void run_ops(op_t *ops, int nops)
             pid_t p = fork();
             if (p < 0) { ev_error("fork"); break; }
             if (p > 0) { int st; while (waitpid(p, &st, 0) < 0 && errno == EINTR) ; emit_simple('w', WIFSIGNALED(st) ? "signal" : "exit"); return; }
+            prctl(PR_SET_PDEATHSIG, SIGKILL);
+            break; }
+        case 'g': { /* giant pid: the rest of the scenario runs as process <arg> (7 digits) of a fresh pid namespace with its own /proc
+                       (pid_max is per namespace; clone3 with set_tid picks the number) -- pids are not always 5 digits wide */
+            long want = (long) arg_ll(&op->a[0]);
+            fflush(NULL);
+            if (unshare(CLONE_NEWPID) < 0) { ev_error("unshare pidns"); break; }
+            pid_t init = fork();
+            if (init < 0) { ev_error("fork pidns"); break; }
+            if (init > 0) { int st; while (waitpid(init, &st, 0) < 0 && errno == EINTR) ; emit_simple('w', WIFSIGNALED(st) ? "signal" : "exit"); return; }
+            /* pid 1 of the new namespace */
+            prctl(PR_SET_PDEATHSIG, SIGKILL);
+            if (unshare(CLONE_NEWNS) < 0 || mount("none", "/", NULL, MS_REC | MS_PRIVATE, NULL) < 0 || mount("proc", "/proc", "proc", MS_NOSUID | MS_NODEV | MS_NOEXEC, NULL) < 0) {
+                ev_error("private /proc"); _exit(0);
+            }
+            int pfd = open("/proc/sys/kernel/pid_max", O_WRONLY);
+            if (pfd >= 0) { if (write(pfd, "4194304", 7) < 0) ev_error("pid_max"); close(pfd); } else ev_error("open pid_max");
+            struct clone_args ca; memset(&ca, 0, sizeof ca);
+            pid_t tid = (pid_t) want;
+            ca.exit_signal = SIGCHLD; ca.set_tid = (uint64_t) (uintptr_t) &tid; ca.set_tid_size = 1;
+            long r = syscall(SYS_clone3, &ca, sizeof ca);
+            if (r < 0) { ev_error("clone3 set_tid"); _exit(0); }
+            if (r > 0) {
+                /* init of the namespace: stay until every process in it is gone (orphans are reparented to us), else they would be killed */
+                int st, mainst = 0;
+                for (;;) { pid_t w = wait(&st); if (w < 0) { if (errno == EINTR) continue; break; } if (w == (pid_t) r) mainst = st; }
+                _exit(WIFEXITED(mainst) ? WEXITSTATUS(mainst) : 99);
+            }
             prctl(PR_SET_PDEATHSIG, SIGKILL);
             break; }
         case 'b': { /* background job: the rest of the scenario runs in a child that sits in a BACKGROUND process group of the controlling
